@@ -20,8 +20,9 @@ INNER = {
     "c13_float_roundtrip": ("one field, index < 62", ["inners::set_float", "inners::get_float"]),
     "c13_bytes_roundtrip": ("one field, index < 62", ["inners::set_bytes", "inners::get_bytes"]),
     "c13_shorts_roundtrip": ("one field, index < 62", ["inners::set_shorts", "inners::get_shorts"]),
-    "c13_guid_roundtrip": ("one guid field (two words), index < 62", ["inners::set_guid", "inners::get_guid"]),
-    "c13_write_and_read_one_field": ("one field, index < 32 (one block), optional dirty_reset", ["inners::write_into_vec", "inners::read_inner", "inners::update_mask_size"]),
+    "c13_guid_set_contract": (None, ["inners::set_guid", "Guid::to_u32s", "Guid::from_u32s"]),
+    "c13_write_one_field": ("one field, index < 32 (one block), optional dirty_reset", ["inners::write_into_vec", "inners::update_mask_size"]),
+    "c13_read_one_block": ("one block with one field at index 0, 5 or 31", ["inners::read_inner"]),
 }
 
 
@@ -30,7 +31,7 @@ def batches(scratch, tier="thorough", seed=0):
             "c13_inners": vlib.read(os.path.join(vlib.VERIF, "contracts/kani/c13_inners.rs"))}
     specs = {}
     for h, (bound, fns) in INNER.items():
-        specs[P + h] = dict(kind="bounded", bound=bound, default_prop=PROP, functions=["helper::update_mask_common::" + f for f in fns])
+        specs[P + h] = dict(kind=("bounded" if bound else "complete"), bound=bound, default_prop=PROP, functions=["helper::update_mask_common::" + f for f in fns])
     specs[P + "c13_canary"] = dict(canary=True)
     injs = []
     meta = {}
